@@ -44,7 +44,10 @@ Definition tlines_eqb (a : list tline) (b : list line) : bool := list_eqb tline_
 Definition corr_base (c : case) : bool :=
   match c with
   | CWrite mtl ms il ir =>
-      res_eqb lines_eqb (write mtl ms) il &&
+      (* outside the property's domain (ill-formed mesh, empty mesh in front of another one, unnamed material) only
+         the error class of the writer is compared: what such a text looks like is nobody's contract; the reader
+         model is still run on the text the implementation wrote *)
+      (if wf_list ms then res_eqb lines_eqb (write mtl ms) il else res_eqb (fun _ _ => true) (write mtl ms) il) &&
       match il with Ok ls => res_eqb rd_eqb (read ls) ir | _ => true end
   | CFile file r1 il r2 =>
       res_eqb rd_eqb (read file) r1 &&
